@@ -37,7 +37,7 @@ ASSUMPTIONS = [
 ]
 CONFIG = {
     'shards': {'quick': 16, 'thorough': 16},
-    'min_nontrivial': {'quick': 300, 'thorough': 4000},
+    'min_nontrivial': {'quick': 900, 'thorough': 6000},
     'required_counters': ['conflicts_decided', 'rejected_updates_checked'],
 }
 ANCHORS = [
@@ -508,7 +508,7 @@ def check_library_update(ctx, key):
 
 
 def run_shard(ctx):
-    n = 260 if ctx.tier == 'quick' else 3000
+    n = 700 if ctx.tier == 'quick' else 5000
     for i in range(n):
         if ctx.mine(i):
             check_split(ctx, {'key': 'S%d_%d' % (ctx.seed, i),
